@@ -66,7 +66,7 @@ func (c *EquidistantConic) Forward(lonlat geom.XY) geom.XY {
 		λ0r = dtor(λ0d)
 	)
 	var (
-		n  = (cos(φ1r) - cos(φ2r)) / (φ2r - φ1r)
+		n  = equidistantConeConstant(φ1r, φ2r)
 		G  = cos(φ1r)/n + φ1r
 		ρ0 = G - φ0r
 
@@ -98,7 +98,7 @@ func (c *EquidistantConic) Reverse(xy geom.XY) geom.XY {
 		φ2r = dtor(φ2d)
 	)
 	var (
-		n  = (cos(φ1r) - cos(φ2r)) / (φ2r - φ1r)
+		n  = equidistantConeConstant(φ1r, φ2r)
 		G  = cos(φ1r)/n + φ1r
 		ρ0 = G - φ0r
 
@@ -110,4 +110,14 @@ func (c *EquidistantConic) Reverse(xy geom.XY) geom.XY {
 		λr = λ0r + θ/n
 	)
 	return geom.XY{X: rtod(λr), Y: rtod(φr)}
+}
+
+// equidistantConeConstant gives the cone constant for the two standard
+// parallels (in radians). When they coincide the cone is tangent at that
+// parallel; the general formula is 0/0 there and its limit is sin(φ1).
+func equidistantConeConstant(φ1r, φ2r float64) float64 {
+	if φ1r == φ2r {
+		return sin(φ1r)
+	}
+	return (cos(φ1r) - cos(φ2r)) / (φ2r - φ1r)
 }
